@@ -440,6 +440,33 @@ def main_check(modname, tier, replay=None, seed=None, cases=None, selftest=False
     return exit_code
 
 
+def digest_only(modname, tier, seed, cases, jobs):
+    """Determinism self-test helper: runs the case batch and prints one digest over all block digests (no oracle phases)."""
+    from . import build
+    build.activate()
+    mod = importlib.import_module(modname)
+    cfg = dict(mod.TIERS[tier])
+    cfg["cases"] = cases
+    cfg.setdefault("block", 100)
+    cfg["block"] = min(cfg["block"], max(1, cases // 8))
+    cfg.setdefault("case_timeout", 20.0)
+    cfg["tier"] = tier
+    blk = Block(mod, seed, cfg)
+    nblocks = (cfg["cases"] + cfg["block"] - 1) // cfg["block"]
+    outs = runner.run_indexed(blk.run_block, nblocks, jobs=jobs, case_timeout=cfg["case_timeout"] * 2 + cfg["block"], confirm=False)
+    h = hashlib.sha256()
+    bad = 0
+    for o in outs:
+        if o.status != "ok":
+            bad += 1
+            h.update(f"{o.index}:{o.status}".encode())
+        else:
+            h.update(f"{o.index}:{o.value['digest']}:{sorted(o.value['stats'].items())}".encode())
+    print(f"DIGEST {mod.PROPERTY} seed={seed} cases={cases} jobs={jobs} hashseed={os.environ.get('PYTHONHASHSEED')} "
+          f"blocks={nblocks} not_ok={bad} {h.hexdigest()}", flush=True)
+    return 0
+
+
 def do_replay(mod, path):
     with open(path) as f:
         rep = json.load(f)
